@@ -168,11 +168,112 @@ func roundtrip(c *explore.Ctx) {
 	}
 }
 
+// ---- collection lengths: short-form boundaries of the compact headers and the chunked growth of long lists
+
+type lenItem struct {
+	A int16  `thrift:"1"`
+	B string `thrift:"2"`
+}
+
+type lenT struct {
+	L  []int32            `thrift:"1"`
+	S  []string           `thrift:"2"`
+	LS []lenItem          `thrift:"3"`
+	M  map[int32]int64    `thrift:"4"`
+	E  map[int32]struct{} `thrift:"5"`
+	LL [][]int8           `thrift:"6"`
+	LB []bool             `thrift:"7"`
+	D  []float64          `thrift:"8"`
+}
+
+var collectionLengths = []int{0, 1, 2, 14, 15, 16, 17, 127, 128, 129, 1023, 1024, 1025, 1500, 2047, 2048, 2049, 3000, 5000}
+
+func collectionLens(c *explore.Ctx) {
+	n := collectionLengths[c.Choose(len(collectionLengths))]
+	which := c.Choose(8)
+	p := Protocols[c.Choose(len(Protocols))]
+	var v lenT
+	name := ""
+	switch which {
+	case 0:
+		name = "list<i32>"
+		for i := 0; i < n; i++ {
+			v.L = append(v.L, int32(i*7-3))
+		}
+	case 1:
+		name = "list<string>"
+		for i := 0; i < n; i++ {
+			v.S = append(v.S, fmt.Sprint("s", i))
+		}
+	case 2:
+		name = "list<struct>"
+		for i := 0; i < n; i++ {
+			v.LS = append(v.LS, lenItem{A: int16(i), B: "b"})
+		}
+	case 3:
+		name = "map<i32,i64>"
+		if n > 0 {
+			v.M = map[int32]int64{}
+		}
+		for i := 0; i < n; i++ {
+			v.M[int32(i)] = int64(i) << 20
+		}
+	case 4:
+		name = "set<i32>"
+		if n > 0 {
+			v.E = map[int32]struct{}{}
+		}
+		for i := 0; i < n; i++ {
+			v.E[int32(i*3)] = struct{}{}
+		}
+	case 5:
+		name = "list<list<i8>>"
+		for i := 0; i < n; i++ {
+			v.LL = append(v.LL, []int8{int8(i), 1})
+		}
+	case 6:
+		name = "list<bool>"
+		for i := 0; i < n; i++ {
+			v.LB = append(v.LB, i%3 == 0)
+		}
+	case 7:
+		name = "list<double>"
+		for i := 0; i < n; i++ {
+			v.D = append(v.D, float64(i)+0.5)
+		}
+	}
+	desc := fmt.Sprintf("%s of %d elements over %s", name, n, p.Name)
+	var b []byte
+	var err error
+	if pv, ps := explore.Catch(func() { b, err = thrift.Marshal(p.P, v) }); pv != nil || err != nil {
+		c.Fail("lengths:Marshal:"+ps, "Marshal fails (%v %v) for %s", pv, err, desc)
+		return
+	}
+	var out lenT
+	var uerr error
+	if pv, ps := explore.Catch(func() { uerr = thrift.Unmarshal(p.P, b, &out) }); pv != nil {
+		c.Fail("lengths:Unmarshal:panic:"+ps, "Unmarshal panicked: %v for %s", pv, desc)
+		return
+	}
+	if uerr != nil {
+		c.Fail("lengths:Unmarshal:error:"+p.Name+":"+name, "Unmarshal fails: %v for %s", uerr, desc)
+		return
+	}
+	if !reflect.DeepEqual(out, v) {
+		got := map[string]int{"L": len(out.L), "S": len(out.S), "LS": len(out.LS), "M": len(out.M), "E": len(out.E), "LL": len(out.LL), "LB": len(out.LB), "D": len(out.D)}
+		c.Fail("lengths:value-differs:"+name, "Unmarshal(Marshal(v)) != v for %s (decoded lengths %v)", desc, got)
+	}
+	c.NontrivialStr("len", name, p.Name, fmt.Sprint(n))
+	c.Outcome(fmt.Sprintf("%s long=%v", p.Name, n > 1024))
+	c.Case(map[string]any{"collection": name, "elements": n, "protocol": p.Name, "encoded_bytes": len(b)})
+}
+
 // Spec returns the C04 check.
 func Spec() *explore.Spec {
 	return &explore.Spec{
 		ID: "C04",
 		Families: []*explore.Family{
+			{Name: "collection-lengths", ShardDepth: 2, Body: collectionLens, Doc: "lists of 7 element kinds, a map and a set with 0..17, 127..129, 1023..1025, 1500, 2047..2049, 3000, 5000 elements (compact short-form boundary at 15, the decoder's chunked growth beyond 1024) x 3 protocols"},
 			{Name: "roundtrip", ShardDepth: 2, Body: roundtrip, Bound: func(tier string) int {
 				if tier == "thorough" {
 					return 2
